@@ -174,7 +174,7 @@ Definition qrec (q : qd) : rrset := mkRR (q_name q) (q_cl q) (q_ty q) 0 None 0 [
 Section Body.
 Variable W : Z -> rrset -> Prop.
 Variable D : Z -> list rrset -> list rrd -> Prop.
-Variable R : list rrset -> list rrd -> list rrset -> Prop.
+Variable R : Z -> list rrset -> list rrd -> list rrset -> Prop.
 Hypothesis chainW : forall sec l r r' file,
   1 <= sec <= 3 ->
   zlen file = zlen (out r) -> TableSound file (tbl r) -> TblBelow r -> Forall (W sec) l ->
@@ -186,7 +186,7 @@ Hypothesis chainW : forall sec l r r' file,
     (forall s, 0 <= s <= 3 -> s <> sec -> count_of r' s = count_of r s) /\
     rflags r' = rflags r /\ maxsz r' = maxsz r /\ reserved r' = reserved r /\ padded r' = padded r /\
     rsec r <= rsec r' <= Z.max (rsec r) sec /\
-    (forall l2 tq, R l ds l2 -> tbl_ci tq (tbl r) ->
+    (forall l2 tq, R sec l ds l2 -> tbl_ci tq (tbl r) ->
        exists tq', add_rrsets o sec l2 (with_tbl r tq) = Ok (false, with_tbl r' tq') /\ tbl_ci tq' (tbl r')).
 
 Lemma render_body_gen m ms rp r hdr :
@@ -210,7 +210,7 @@ Lemma render_body_gen m ms rp r hdr :
     | None => e3 = length (hdr ++ body)
     end /\
     (forall m2, mflags m2 = mflags m -> mopt m2 = mopt m -> mq m2 = map qrec qs ->
-       R (man m) ds1 (man m2) -> R (mau m) ds2 (mau m2) -> R (mad m) ds3 (mad m2) ->
+       R 1 (man m) ds1 (man m2) -> R 2 (mau m) ds2 (mau m2) -> R 3 (mad m) ds3 (mad m2) ->
        compute_tsig_reserve m2 = compute_tsig_reserve m ->
        exists tq5, head5 m2 ms rp = Ok (with_tbl r5 tq5) /\ tbl_ci tq5 (tbl r5)).
 Proof.
@@ -265,7 +265,7 @@ Proof.
         unfold r2; cbn [rsec set_limits r0]; lia. }
     lia. }
   assert (RE4 : forall m2, mflags m2 = mflags m -> mopt m2 = mopt m -> mq m2 = map qrec qs ->
-       R (man m) ds1 (man m2) -> R (mau m) ds2 (mau m2) -> R (mad m) ds3 (mad m2) ->
+       R 1 (man m) ds1 (man m2) -> R 2 (mau m) ds2 (mau m2) -> R 3 (mad m) ds3 (mad m2) ->
        compute_tsig_reserve m2 = compute_tsig_reserve m ->
        exists tq4, tbl_ci tq4 (tbl s4) /\
          head5 m2 ms rp = match mopt m with
@@ -382,7 +382,7 @@ Lemma layout_final m ms rp w :
     | _, _ => False
     end /\
     (forall m2, mid m2 = mid m -> mflags m2 = mflags m -> mopt m2 = mopt m -> mq m2 = map qrec qs ->
-       R (man m) ds1 (man m2) -> R (mau m) ds2 (mau m2) -> R (mad m) ds3 (mad m2) -> mtsig m2 = t' ->
+       R 1 (man m) ds1 (man m2) -> R 2 (mau m) ds2 (mau m2) -> R 3 (mad m) ds3 (mad m2) -> mtsig m2 = t' ->
        to_wire m2 o ms rp false 0 = Ok w).
 Proof.
   intros WQ WA WU WD WO WT H. unfold to_wire in H. apply bind_ok in H. destruct H as (r & HR & H). injection H as <-.
@@ -441,7 +441,7 @@ Proof.
                          (full_labels_abs kn o NOk) NOk POk SHk HE8)
       as (_ & _ & _ & _ & kn' & xk & rd' & c1 & rdl & CIk & NOk' & HXk & CIr & _ & _ & A & B & C & E & SLk & RE8).
     assert (RR : forall m2, mid m2 = mid m -> mflags m2 = mflags m -> mopt m2 = mopt m -> mq m2 = map qrec qs ->
-       R (man m) ds1 (man m2) -> R (mau m) ds2 (mau m2) -> R (mad m) ds3 (mad m2) -> mtsig m2 = Some (kn', rd') ->
+       R 1 (man m) ds1 (man m2) -> R 2 (mau m) ds2 (mau m2) -> R 3 (mad m) ds3 (mad m2) -> mtsig m2 = Some (kn', rd') ->
        to_wire m2 o ms rp false 0 = Ok (out r)).
     { intros m2 Hid2 Hfl2 Hopt2 Hq2 HR1 HR2 HR3 Ht2.
       assert (Htr2 : compute_tsig_reserve m2 = compute_tsig_reserve m).
@@ -482,7 +482,7 @@ Proof.
   - (* without TSIG *)
     injection T6 as <-.
     assert (RR : forall m2, mid m2 = mid m -> mflags m2 = mflags m -> mopt m2 = mopt m -> mq m2 = map qrec qs ->
-       R (man m) ds1 (man m2) -> R (mau m) ds2 (mau m2) -> R (mad m) ds3 (mad m2) -> mtsig m2 = None ->
+       R 1 (man m) ds1 (man m2) -> R 2 (mau m) ds2 (mau m2) -> R 3 (mad m) ds3 (mad m2) -> mtsig m2 = None ->
        to_wire m2 o ms rp false 0 = Ok (out r6)).
     { intros m2 Hid2 Hfl2 Hopt2 Hq2 HR1 HR2 HR3 Ht2.
       assert (Htr2 : compute_tsig_reserve m2 = compute_tsig_reserve m).
@@ -527,7 +527,7 @@ Lemma render_body m ms rp r hdr :
     end.
 Proof.
   intros Hh [W0 WQ WA WU WD KA KU KD WO] H.
-  destruct (render_body_gen (fun _ => wf_rrset o) (fun _ => SecDesc o) Rebuilt
+  destruct (render_body_gen (fun _ => wf_rrset o) (fun _ => SecDesc o) (fun _ => Rebuilt)
                          (fun sec l r r' file => add_rrsets_chain_x o OO sec l r r' file) m ms rp r hdr Hh WQ WA WU WD WO H)
     as (qs & ds1 & ds2 & ds3 & owner' & wb & body & e0 & e1 & e2 & e3 & r5 &
         A1&A2&A3&A4&A5&A6&A7&A8&A9&A10&A11&A12&A13&A14&A15&A16&A17&A18&A19&A20&_).
@@ -698,7 +698,7 @@ Theorem render_parse_rerender_lemma m ms rp w :
   exists m', from_wire w o po0 = Ok m' /\ msg_equiv_t m' m /\ to_wire m' o ms rp false 0 = Ok w.
 Proof.
   intros WF WT H. pose proof WF as [W0 WQ WA WU WD KA KU KD WO].
-  destruct (layout_final (fun _ => wf_rrset o) (fun _ => SecDesc o) Rebuilt
+  destruct (layout_final (fun _ => wf_rrset o) (fun _ => SecDesc o) (fun _ => Rebuilt)
                          (fun sec l r r' file => add_rrsets_chain_x o OO sec l r r' file) m ms rp w WQ WA WU WD WO WT H)
     as (qs & ds1 & ds2 & ds3 & owner' & wb & body & e0 & e1 & e2 & e3 & e4 & t' & Ew & Hid & Hfl & L0 & L1 & L2 & L3 &
         QC & C1 & C2 & C3 & QD & SD1 & SD2 & SD3 & HO & HT & TE & RR).
